@@ -809,16 +809,16 @@ func (f *fragment) unprotectedSetRow(row *Row, rowID uint64) (changed bool, err 
 	}
 
 	// From the given row, get the rowSegment for this shard.
+	// If the row has no segment for this shard then the row is simply cleared,
+	// but the caches must still be updated and the change persisted below.
 	seg := row.segment(f.shard)
-	if seg == nil {
-		return changed, nil
-	}
-
-	// Put each container from rowSegment to fragment storage.
-	citer, _ := seg.data.Containers.Iterator(f.shard << shardVsContainerExponent)
-	for citer.Next() {
-		k, c := citer.Value()
-		f.storage.Containers.Put(headContainerKey+(k%(1<<shardVsContainerExponent)), c)
+	if seg != nil {
+		// Put each container from rowSegment to fragment storage.
+		citer, _ := seg.data.Containers.Iterator(f.shard << shardVsContainerExponent)
+		for citer.Next() {
+			k, c := citer.Value()
+			f.storage.Containers.Put(headContainerKey+(k%(1<<shardVsContainerExponent)), c)
+		}
 	}
 
 	// Update the row in cache.
